@@ -75,6 +75,10 @@ def draw_cfg(st):
         cfg["max_ops"] = min(cfg["max_ops"], 20)
         # global fields added while other threads are logging
         cfg["w_destop"] = [0, 2, 5][st.choose(3, "w_globals")]
+        # extractors registered by one thread while others are failing actions (a lazily imported module
+        # registering its extractors): the registry is shared
+        cfg["w_xreg"] = [0, 2, 4][st.choose(3, "w_xreg")]
+        cfg["extractable"] = EXTRACTABLE
     elif st.choose(4, "seq-remote") == 3:
         cfg["spawn_kinds"] = ["remote", "preserve"]
         cfg["w_ops"] = [6, 6, 2, 2, 2, 0, 1]
